@@ -64,6 +64,23 @@ var gT = &T{A: 100}
 func dbl(x int) int { return x * 2 }
 func neg(x int) int { return -x }
 
+func fill(v int, xs ...int) {
+	for i := range xs {
+		xs[i] = v + i
+	}
+}
+
+func (t *T) Scale(xs ...int) int {
+	for i := range xs {
+		xs[i] *= t.A
+	}
+	return len(xs)
+}
+
+func relay(xs ...int) {
+	fill(50, xs...)
+}
+
 func apply(f func(int) int, v int) int {
 	if f == nil {
 		return -1
@@ -330,6 +347,8 @@ func c09GenCase(seed int64, idx int) packedCase {
 		fmt.Fprintf(&sb, "\to := &T{A: %d}\n\tshow(o.MV(%d), o.MV(1, 2), o.Rec(%d))\n", rng.Intn(9), rng.Intn(9), rng.Range(1, 40))
 		// a spread slice through a method reached as an attribute of a local, of a field and of a global
 		fmt.Fprintf(&sb, "\txs := []int{%d, %d, %d}\n\tshow(o.MV(2, xs...), o.MV(3, []int{}...), o.MV(4, xs[:1]...))\n", rng.Intn(9), rng.Intn(9), rng.Intn(9))
+		// a spread slice is passed through unchanged: the callee's writes to its elements are the caller's
+		fmt.Fprintf(&sb, "\tys := []int{1, 2, 3, 4}\n\tfill(%d, ys...)\n\tshow(ys)\n\to.A = 3\n\tshow(o.Scale(ys...), ys)\n\tsc := o.Scale\n\tshow(sc(ys[1:3]...), ys)\n\trelay(ys[2:]...)\n\tshow(ys)\n\tfill(9, 1, 2)\n", rng.Intn(9))
 		fmt.Fprintf(&sb, "\th := &H{O: o}\n\tshow(h.O.MV(5, xs...), gT.MV(6, xs...))\n\tvar none []int\n\tshow(o.MV(7, none...))\n")
 	}
 	sb.WriteString("}\n")
@@ -448,7 +467,7 @@ func c09RunIll(r *core.Run, ill c09Ill, optimize bool) string {
 }
 
 func runC09(r *core.Run) {
-	r.SetRule("generated callee/driver pairs: 0-5 parameters over {int, byte, int8, uint32, float64, string, bool, []int, map[string]int, *T, func(int) int, any}, optional variadic tail, 0-3 results; call forms statement / value / inside an expression / multi-assign with blanks / pre-declared typed targets / return f() wrapper / function-typed variable / method / method value taken before a receiver update / function-typed field and parameter / spread / zero surplus arguments; nil and untyped constants for every parameter type; recursion (direct, mutual, method) to depth 5000 with live locals; plus a table of ill-formed calls through script and host API under the trace monitor. non-trivial = accepted by Go and printed at least 3 lines; distinct by text")
+	r.SetRule("generated callee/driver pairs: 0-5 parameters over {int, byte, int8, uint32, float64, string, bool, []int, map[string]int, *T, func(int) int, any}, optional variadic tail, 0-3 results; call forms statement / value / inside an expression / multi-assign with blanks / pre-declared typed targets / return f() wrapper / function-typed variable / method / method value taken before a receiver update / function-typed field and parameter / spread / zero surplus arguments; nil and untyped constants for every parameter type; callees that write to the elements of a spread slice; recursion (direct, mutual, method) to depth 5000 with live locals; histories in which a function is defined again with another parameter list (later Eval or repeated Load) and then called from script and host; plus a table of ill-formed calls through script and host API under the trace monitor. non-trivial = accepted by Go and printed at least 3 lines; distinct by text")
 	r.Assume("Go toolchain (GOARCH=386) is the reference for well-formed calls; for ill-formed calls (not valid Go) the property text is the oracle: an error, never a silently misaligned stack")
 	n := r.N(1500, 30000)
 	var cases []packedCase
@@ -493,6 +512,15 @@ func runC09(r *core.Run) {
 			r.Sample(map[string]any{"source": cases[i].Decl, "output": excerpt(pr.Go, 12)})
 		}
 	}
+	for i := 0; i < r.N(300, 6000); i++ {
+		r.Eval(1)
+		if what, trace := c09Redef(r.Seed, i); what != "" {
+			r.Violate(core.Violation{Check: "c09-redef", Index: i, What: what, Case: trace})
+		} else {
+			r.Distinct(fmt.Sprint(trace))
+			r.Count("redefinition_histories", 1)
+		}
+	}
 	for i, ill := range c09Ills {
 		for _, opt := range []bool{true, false} {
 			r.Eval(1)
@@ -504,6 +532,81 @@ func runC09(r *core.Run) {
 			}
 		}
 	}
+}
+
+// c09Redef: a function is defined again with another parameter list (a later Eval, or the package loaded
+// again): calls made afterwards, from scripts and from the host, follow the new signature.
+func c09Redef(seed int64, idx int) (what string, trace []string) {
+	rng := core.Derive(seed, "c09-redef", idx)
+	type form struct {
+		src  string
+		args [][]int
+		f    func(a []int) int
+	}
+	sum := func(a []int) int {
+		t := 0
+		for _, x := range a {
+			t += x
+		}
+		return t
+	}
+	forms := []form{
+		{"func f(a int) int { return a + 1 }", [][]int{{5}, {42}}, func(a []int) int { return a[0] + 1 }},
+		{"func f(a int, b int) int { return a*10 + b }", [][]int{{5, 6}, {1, 2}}, func(a []int) int { return a[0]*10 + a[1] }},
+		{"func f(a int, xs ...int) int { t := a * 100; for _, x := range xs { t += x }; return t + len(xs) }", [][]int{{5}, {5, 1, 2}, {7, 9}}, func(a []int) int { return a[0]*100 + sum(a[1:]) + len(a) - 1 }},
+		{"func f(xs ...int) int { t := len(xs) * 1000; for _, x := range xs { t += x }; return t }", [][]int{{}, {4}, {1, 2, 3}}, func(a []int) int { return len(a)*1000 + sum(a) }},
+		{"func f() int { return 77 }", [][]int{{}}, func(a []int) int { return 77 }},
+	}
+	m := core.NewMachine(core.VMOpts{Optimize: rng.Bool(), Obs: core.NewObs(core.SmallBudget, false, nil)})
+	viaLoad := rng.Chance(1, 3)
+	for step, n := 0, rng.Range(2, 6); step < n; step++ {
+		f := core.Pick(rng, forms)
+		trace = append(trace, f.src)
+		var o core.Outcome
+		if viaLoad {
+			var err error
+			if p := core.Guard(func() { err = m.VM.Load(core.MapFS(map[string]string{"app/main.go": "package main\n\n" + f.src + "\n"}), "app") }); p != "" {
+				return "a Go panic escaped Load: " + p, trace
+			}
+			if err != nil {
+				o.Err = err.Error()
+			}
+		} else {
+			o = m.Eval(nil, f.src)
+		}
+		if o.Failed() {
+			return fmt.Sprintf("step %d: defining %q fails: %s%s", step, f.src, core.ErrFirstLine(o.Err), o.Panic), trace
+		}
+		for _, args := range f.args {
+			want := fmt.Sprint(f.f(args))
+			var lits []string
+			var vals []goatlang.Value
+			for _, a := range args {
+				lits = append(lits, fmt.Sprint(a))
+				vals = append(vals, goatlang.Int(a))
+			}
+			call := "f(" + strings.Join(lits, ", ") + ")"
+			so := m.Eval(nil, "r := "+call+"; r")
+			if so.Failed() || len(so.Rets) != 1 || so.Rets[0] != want {
+				return fmt.Sprintf("step %d: after %v the script call %s gives %v %s, the current definition gives %s", step, trace, call, so.Rets, core.ErrFirstLine(so.Err), want), trace
+			}
+			ho := m.Call("main.f", 1, vals...)
+			if ho.Failed() || len(ho.Rets) != 1 || ho.Rets[0] != want {
+				return fmt.Sprintf("step %d: after %v the host call %s gives %v %s, the current definition gives %s", step, trace, call, ho.Rets, core.ErrFirstLine(ho.Err), want), trace
+			}
+			if strings.Contains(f.src, "...") {
+				nFixed := strings.Count(f.src[:strings.Index(f.src, "...")], " int,") // parameters before the variadic one
+				if len(args) < nFixed {
+					continue
+				}
+				sp := m.Eval(nil, "sp := []int{"+strings.Join(lits[nFixed:], ", ")+"}; r2 := f("+strings.Join(append(append([]string{}, lits[:nFixed]...), "sp..."), ", ")+"); r2")
+				if sp.Failed() || len(sp.Rets) != 1 || sp.Rets[0] != want {
+					return fmt.Sprintf("step %d: after %v the spread call gives %v %s, the current definition gives %s", step, trace, sp.Rets, core.ErrFirstLine(sp.Err), want), trace
+				}
+			}
+		}
+	}
+	return "", trace
 }
 
 func replayC09(r *core.Run, v *core.Violation) {
